@@ -413,8 +413,11 @@ def main():
         atexit.register(lambda p=private_driver, me=os.getpid(): os.getpid() == me and os.path.exists(p) and os.remove(p))
     harnesses = sorted({r[0] for r in cfg["runs"][tier]})
     exe_by_name, build_errors = {}, []
+    from concurrent.futures import ThreadPoolExecutor
+    with ThreadPoolExecutor(max_workers=min(8, max(1, len(harnesses)))) as tp:   # the compilers run side by side
+        built = dict(zip(harnesses, tp.map(build_harness, harnesses)))
     for h in harnesses:
-        exe, err = build_harness(h)
+        exe, err = built[h]
         if exe is None:
             build_errors.append((h, err)); log("HARNESS BUILD FAILED %s:\n%s" % (h, err))
         else:
